@@ -26,3 +26,35 @@ Proof. vm_compute. repeat split; congruence. Qed.
 Lemma error_codes_ok :
   YAEP_NO_MEMORY = 1 /\ YAEP_UNDEFINED_OR_BAD_GRAMMAR = 2 /\ YAEP_DESCRIPTION_SYNTAX_ERROR_CODE = 3 /\ YAEP_INVALID_TOKEN_CODE = 17.
 Proof. vm_compute. auto. Qed.
+
+(* the error message is written by a bounded primitive whose bound fits the buffer (MAX + 1 bytes) *)
+Lemma message_bounded : exists b, msg_bounded_by = Some b /\ 0 < b <= MAX_ERROR_MESSAGE_LENGTH + 1.
+Proof. exists MAX_ERROR_MESSAGE_LENGTH. vm_compute. split; [reflexivity | split; reflexivity || discriminate]. Qed.
+
+(* Growth policy of the hash tables: a table expanded at n elements gets more
+   than 2n entries (a prime above [ht_new_size n]); it is expanded again only
+   when it holds about 1.5 n elements, so the sizes grow geometrically and the
+   re-insertions of all expansions together are linear in the final size. *)
+Lemma new_size_doubles : forall n, ht_new_size_c n = 2 * n /\ ht_new_size_cpp n = 2 * n.
+Proof. intros n. unfold ht_new_size_c, ht_new_size_cpp. lia. Qed.
+
+Lemma expansion_geometric : forall n size m, 0 <= n -> 0 <= m -> 2 * n < size ->
+  ht_need_expand_c size m = true -> 3 * n <= 2 * m + 6.
+Proof.
+  intros n size m Hn Hm Hs H. unfold ht_need_expand_c in H. apply Z.leb_le in H. lia.
+Qed.
+
+Lemma expansion_geometric_cpp : forall n size m, 0 <= n -> 0 <= m -> 2 * n < size ->
+  ht_need_expand_cpp size m = true -> 3 * n <= 2 * m + 6.
+Proof.
+  intros n size m Hn Hm Hs H. unfold ht_need_expand_cpp in H. apply Z.leb_le in H. lia.
+Qed.
+
+(* a table that is not expanded has a free entry for the element being reserved *)
+Lemma no_expand_has_room : forall size m, 0 < size -> 0 <= m -> ht_need_expand_c size m = false -> m + 1 < size.
+Proof.
+  intros size m Hs Hm H. unfold ht_need_expand_c in H. apply Z.leb_gt in H. lia.
+Qed.
+
+Lemma probe_step_in_range : forall size h, 3 <= size -> 0 <= h -> 1 <= ht_step_c size h <= size - 2.
+Proof. intros size h Hs Hh. unfold ht_step_c. lia. Qed.
